@@ -125,6 +125,10 @@ def rule_framing(ctx: Ctx):
         r.paths += 1
         if not _normal(p):
             continue
+        term = [mm for mm in emissions(p) if mm.method in ("on_error", "on_completed")]
+        r.ob(not term, lambda term=term: mk_finding(
+            "FR-1", spec, None, {}, p, "unframe signals %s while handling a chunk: a chunk of any content and length is legitimate, and after a terminal "
+            "event the lines of this and of every later chunk are lost" % term[0].method, node=term[0].eff.node, extra="terminal"))
         splits = [e for e in p.trace if e.k == "call" and e.d.get("method") == "split" and e.base == EV]
         sarg = with_settled(splits[0].args[0], rconsts) if len(splits) == 1 and len(splits[0].args) == 1 else None
         ok = sarg is not None and sarg[0] == "const"
@@ -299,6 +303,12 @@ def rule_framing(ctx: Ctx):
         view = ByteView(p)
         sizes = [e for e in p.trace if e.k == "call" and e.d.get("method") == "from_bytes"]
         frames = [mm for mm in emissions(p) if mm.method == "on_next"]
+        # a chunk is any piece of the stream: unframe has nothing to refuse in it, and ends the stream only when its source does
+        term = [mm for mm in emissions(p) if mm.method in ("on_error", "on_completed")]
+        r2.ob(not term, lambda term=term: mk_finding(
+            "FR-2", spec, None, {}, p, "unframe signals %s while handling a chunk (%s): how the stream is cut into chunks is not the sender's choice -- a chunk "
+            "of any length is legitimate -- and after a terminal event the frames of this and of every later chunk are lost" % (
+                term[0].method, "; ".join(e.brief() for e in p.trace if e.k == "decision")[:120]), node=term[0].eff.node, extra="terminal"))
         nl = [e for e in p.trace if e.k == "nonlocal" and e.name == CARRY]
         Pt = None
         for x in [t for e in sizes for a_ in e.args for t in subterms(a_)] + [t for e in p.trace if e.k == "decision" for t in subterms(e.test)]:
@@ -597,6 +607,18 @@ def rule_compression(ctx: Ctx):
             created |= {name for name, v in subscribe_inits(site).items() if ("." in name or "[" in name) and isinstance(v, ast.Call)}
             used = set()
             for which in ("on_next", "on_completed"):
+                if not site.handler_specs(which):
+                    hows = {h.how for s_ in site.subscriptions for k_, h in s_.handlers.items() if k_ == which}
+                    if which == "on_completed" and hows and hows <= {"forward", "absent"}:
+                        # the end of the source goes to the subscriber as it comes: nothing the codec still holds is flushed, and a
+                        # stream that stops before its end-of-stream marker completes like a whole one
+                        r1.ob(False, lambda: Finding(
+                            "OB-1", "%s::%s{completion-unhandled}" % (rel, fname), site.where(),
+                            "%s hands the completion of its source to the subscriber without a handler of its own (%s): %s" % (
+                                fname, "/".join(sorted(hows)), "the last bytes the compressor holds are never emitted" if fname == "compress" else
+                                "a stream cut before its end-of-stream marker completes like a whole one instead of ending in on_error")))
+                        skels[(rel, fname, which)] = ["<no handler>"]
+                        continue
                 site, sk = _codec_skeleton(ctx, rel, fname, which)
                 skels[(rel, fname, which)] = sorted(s[3] for s in sk)
                 for spec, cfg, p, steps in sk:
@@ -1080,6 +1102,14 @@ def _rule_fh1(ctx: Ctx, which_sites):
                     conds = tuple((show(norm(x.test)), x.outcome) for x in p.trace[:k] if x.k == "decision")
                     names = [a.name for a in p.trace[k + 1:k + 2] if a.k == "assign" and a.value == e.result]
                     opens[(id(e.node), conds, tuple(names))] = (e, conds, names)
+        b_opens = [e for p in sub_paths for e in p.trace if e.k == "call" and e.func == ("builtin", "open") and not e.d.get("raised")]
+        if b_opens and not opens:
+            # the caller's open function (open_obj) is a parameter of the operator; the reader opens through it
+            r1.ob(False, lambda b_opens=b_opens: Finding(
+                "FH-1", "%s::%s{opener}" % (rel, suffix.split(".")[0]), b_opens[0].where(),
+                "the file is opened with the builtin open (%s) and the open function the caller gave is never used: with a custom opener (a mapped "
+                "root, an in-memory or remote store) the writer writes somewhere else than the reader, which opens through it, reads" % b_opens[0].brief()))
+            continue
         if len({k[0] for k in opens}) != 1 or any(len(v[2]) != 1 for v in opens.values()):
             raise AnalysisError("%s::%s: expected one call of the open function whose result is kept in a variable; found %s" % (
                 rel, suffix.split(".")[0], [v[0].brief() for v in opens.values()]))
